@@ -303,6 +303,26 @@ Proof.
 Qed.
 
 
+(** ** [TryFromIter] / [TryCollect] (decode/try_from_iter.rs): the four impls are std's [from_iter] of the
+    collection (for [Vec]: [with_capacity] of the iterator's upper size hint, then [extend]) and never fail;
+    [try_collect] hands the iterator to the container's impl *)
+Theorem gen_tfi_vec_try_from_iter_eq {A} (l : list A) : Gen.tfi_vec_try_from_iter l = vec_try_from_iter l.
+Proof. reflexivity. Qed.
+Theorem gen_tfi_smallvec_try_from_iter_eq {A} n (l : list A) : Gen.tfi_smallvec_try_from_iter n l = smallvec_try_from_iter l.
+Proof. reflexivity. Qed.
+Theorem gen_tfi_btreeset_try_from_iter_eq {A} cmp (l : list A) : Gen.tfi_btreeset_try_from_iter cmp l = btreeset_try_from_iter cmp l.
+Proof. reflexivity. Qed.
+Theorem gen_tfi_btreemap_try_from_iter_eq {K V} cmp (l : list (K * V)) : Gen.tfi_btreemap_try_from_iter cmp l = btreemap_try_from_iter cmp l.
+Proof. reflexivity. Qed.
+Theorem gen_try_collect_eq {A C} (f : list A -> outcome C) l : Gen.try_collect f l = f l.
+Proof. reflexivity. Qed.
+(** what the model's collection kinds are: [Vec] and [SmallVec] keep every item in order, the ordered set is
+    the sorted duplicate-free list *)
+Theorem gen_tfi_vec_is_identity {A} (l : list A) : Gen.tfi_vec_try_from_iter l = Ok l.
+Proof. unfold Gen.tfi_vec_try_from_iter. cbn [app]. reflexivity. Qed.
+Theorem gen_tfi_smallvec_is_identity {A} n (l : list A) : Gen.tfi_smallvec_try_from_iter n l = Ok l.
+Proof. reflexivity. Qed.
+
 (** ** [SmallVec<[T; N]>] and [BTreeSet<T>]: the list decoder followed by the collection's [from_iter] *)
 Theorem gen_smallvec_from_ssz_bytes_eq {A} n (f : bool) (l : N) (d : bytes -> outcome A) bs :
   len bs <= usize_max ->
@@ -312,7 +332,7 @@ Proof.
   destruct bs as [|b0 br] eqn:Ebs; [reflexivity|]. rewrite <- Ebs in *.
   replace (len bs =? 0) with false by (symmetry; apply N.eqb_neq; subst bs; unfold len; cbn [length]; lia).
   destruct f; [destruct (l =? 0); reflexivity|].
-  rewrite gen_decode_list_container_eq by exact H. subst bs. unfold smallvec_try_from_iter.
+  rewrite gen_decode_list_container_eq by exact H. subst bs. unfold Gen.tfi_smallvec_try_from_iter, smallvec_from_iter.
   destruct (decode_list_var d CVec (b0 :: br) None); reflexivity.
 Qed.
 
@@ -341,7 +361,7 @@ Proof.
   - destruct (d_fixed_len t =? 0); [reflexivity|]. rewrite mapM_chunks_eq.
     destruct (mapM (dec t) (chunks (N.to_nat (d_fixed_len t)) bs)) as [l| |]; cbn [omap]; try reflexivity.
     rewrite btreeset_from_iter_is_collect. reflexivity.
-  - rewrite gen_decode_list_container_eq by exact H. subst bs. unfold btreeset_try_from_iter.
+  - rewrite gen_decode_list_container_eq by exact H. subst bs. unfold Gen.tfi_btreeset_try_from_iter.
     destruct (decode_list_var (dec t) CVec (b0 :: br) None) as [l| |]; cbn [bind omap]; try reflexivity.
     rewrite btreeset_from_iter_is_collect. reflexivity.
 Qed.
@@ -396,6 +416,10 @@ Print Assumptions gen_decode_list_vec_eq.
 Print Assumptions gen_decode_list_container_eq.
 Print Assumptions gen_smallvec_is_dec_TList.
 Print Assumptions gen_btreeset_is_dec_TSet.
+Print Assumptions gen_tfi_vec_try_from_iter_eq.
+Print Assumptions gen_tfi_btreeset_try_from_iter_eq.
+Print Assumptions gen_tfi_btreemap_try_from_iter_eq.
+Print Assumptions gen_try_collect_eq.
 Print Assumptions gen_vec_is_dec_TList.
 Print Assumptions gen_builder_build_eq.
 Print Assumptions gen_decoder_decode_next_eq.
